@@ -1,10 +1,10 @@
 package main
 
 import (
-	"os"
 	"fmt"
 	"go/token"
 	"go/types"
+	"os"
 	"sort"
 	"strings"
 
@@ -63,7 +63,7 @@ func extend(l, seg string) string {
 }
 
 type ModAnalysis struct {
-	prog  *Program
+	prog *Program
 	// sortExempt: sort.Ints on a location ending in this field is not counted as a write (observable write sets)
 	sortExempt string
 	// Caps(f): "dst <- src" pairs: a reference rooted at src (parameter/global) is stored into
